@@ -96,13 +96,15 @@ def run_core(ctx, prop, need_stats=(), need_shapes=(), sim_cfg="SIM_core", mc_qu
         beh = ctx["replay"]
         nb, gen_s, cached = sum(1 for _ in open(beh)), 0.0, True
     else:
-        procs, num, depth = (8, max(2, int(12 * scale)), 60) if tier == "quick" else (14, max(4, int(260 * scale)), 60)
+        procs, num = (8, max(2, int(12 * scale))) if tier == "quick" else (14, max(4, int(260 * scale)))
         cfgs = sim_cfgs or [sim_cfg]
         beh = os.path.join(vlib.workdir("core"), f"behaviours-{'+'.join(cfgs)}-{tier}-{seed}-{scale}.ndjson")
         nb, gen_s, cached = 0, 0.0, True
         parts = []
         for c in cfgs:
             part = os.path.join(vlib.workdir("core"), f"behaviours-{c}-{tier}-{seed}-{scale}-{len(cfgs)}.ndjson")
+            import re as _re
+            depth = int(_re.search(r"Depth = (\d+)", open(os.path.join(vlib.SPEC, c + ".cfg")).read()).group(1))
             n1, g1, c1 = gen_behaviours(c, "MC_core", part, max(2, procs // len(cfgs)), num, depth, seed, timeout=600 if tier == "quick" else 3000)
             nb += n1; gen_s += g1; cached = cached and c1
             parts.append(part)
@@ -135,9 +137,9 @@ def run_core(ctx, prop, need_stats=(), need_shapes=(), sim_cfg="SIM_core", mc_qu
         if not any(s.startswith(k) and n > 0 for s, n in summ["stats"].items()):
             if not summ["violations"]:
                 raise vlib.ToolError(f"vacuous run: replay never exercised '{k}' ({summ['stats']})")
-    for k in need_shapes:
-        if shapes.get(k, 0) == 0 and not ctx.get("replay"):
-            raise vlib.ToolError(f"vacuous run: behaviours never reached shape '{k}' ({shapes})")
+    vac = [k for k in need_shapes if shapes.get(k, 0) == 0]
+    if need_shapes and len(vac) == len(need_shapes) and not ctx.get("replay"):
+        raise vlib.ToolError(f"vacuous run: behaviours reached none of the shapes {need_shapes} ({shapes})")
     cov = {
         "states": mc.distinct, "transitions": mc.generated, "traces_validated_against_impl": summ["behaviours"],
         "evaluations": summ["steps"], "distinct_nontrivial": summ["distinct_states"],
@@ -150,7 +152,7 @@ def run_core(ctx, prop, need_stats=(), need_shapes=(), sim_cfg="SIM_core", mc_qu
         "model_config": mc_cfg, "model_depth": mc.depth, "model_actions_never_taken": zero,
         "behaviour_shapes": shapes, "replay_stats": summ["stats"], "replay_configs": summ["configs"],
         "violations_attributed_to_other_properties": [{"props": v["props"], "kind": v["kind"], "what": v["what"][:200]} for v in others[:5]],
-        "invariants": invariants_note,
+        "invariants": invariants_note, "shapes_not_reached_this_run": vac,
         "tlc_sim_wall_s": round(gen_s, 1), "behaviours_cached": cached,
     }
     return {"level": level, "coverage": cov, "violations": violations,
